@@ -572,7 +572,7 @@ def check_firewall(ctx, chk):
         val = cn.show(ev.data["value"])
         if f_implies(F, userzone):
             chk.ob("C15.firewall", "user<->user rule allows every declared service",
-                   val == "set(G.services)", val[:200], ev.loc)
+                   is_all_services(val), val[:200], ev.loc)
     # every connected pair gets a rule: disjunction of the store conditions == connected
     cover = f_or(conds) if conds else ("false",)
     # draws are opaque atoms; project: for every valuation of the structural atoms some store fires
@@ -585,6 +585,11 @@ def check_firewall(ctx, chk):
     ok = any(ast.unparse(x.test) == f"len(allowed) < {R}" for x in w)
     chk.ob("C15.firewall", "sampling branch stops at `restrictiveness` services "
            f"(while len(allowed) < {R})", ok, str([ast.unparse(x.test) for x in w]), fi.module.path)
+
+
+def is_all_services(val):
+    import re
+    return re.fullmatch(r"set\((sorted\(|list\(|tuple\()?G\.services\)?\)", val) is not None
 
 
 def _drop_atoms(F, keep):
